@@ -9,6 +9,7 @@ import (
 	"path/filepath"
 	"sort"
 	"strings"
+	"sync"
 	"time"
 
 	"golang.org/x/tools/go/packages"
@@ -67,7 +68,16 @@ func load(patterns []string) (*Loaded, error) {
 		return nil, fmt.Errorf("harness or repository does not type-check:\n  %s", strings.Join(errs, "\n  "))
 	}
 	prog, _ := ssautil.AllPackages(pkgs, ssa.InstantiateGenerics)
-	prog.Build()
+	// SSA bodies are built eagerly for the go-task packages and lazily (on first
+	// call, see callSSA) for dependencies.
+	var bw sync.WaitGroup
+	for _, p := range prog.AllPackages() {
+		if strings.HasPrefix(p.Pkg.Path(), modulePath) {
+			bw.Add(1)
+			go func(p *ssa.Package) { defer bw.Done(); p.Build() }(p)
+		}
+	}
+	bw.Wait()
 	l := &Loaded{prog: prog, pkgs: pkgs, stubs: map[string]*ssa.Function{}, fileSHA: map[string]string{}, overlay: overlay}
 	for _, p := range prog.AllPackages() {
 		switch p.Pkg.Path() {
@@ -97,7 +107,7 @@ func load(patterns []string) (*Loaded, error) {
 					if strings.HasPrefix(c.Text, "//gosmt:stub ") {
 						target := strings.TrimSpace(strings.TrimPrefix(c.Text, "//gosmt:stub "))
 						if fn := sp.Func(fd.Name.Name); fn != nil {
-							l.stubs[target] = fn
+							l.stubs[pk.PkgPath+"|"+target] = fn
 						}
 					}
 				}
